@@ -57,7 +57,7 @@ func (Engine) Describe(prop string) core.Description {
 			"'names it back' is read on names only; a state whose only offence is a reciprocal with another target type is not judged either way",
 			"the soundness/completeness law is a pure function of the state and is sampled on the states histories reach, not enumerated",
 		}
-		d.Probes = []string{"state-clean", "state-offending", "state-mistyped-inverse-only", "state-fromtype-mismatch", "state-dangling-target", "state-unreciprocated", "state-own-inverse", "state-bulk-offenders"}
+		d.Probes = []string{"state-clean", "state-offending", "state-mistyped-inverse-only", "state-fromtype-mismatch", "state-dangling-target", "state-unreciprocated", "state-own-inverse", "state-bulk-offenders", "state-many-types-at-once"}
 	case "C16":
 		d.Rule = "one run = one seeded coherent schema (types, one-way relationships, two-way pairs over names whose concatenations and underscore joins collide) built three times in permuted type/relationship order; Rels() of the three under different map orders must be one list with each one-way relationship once and one member of each pair; " +
 			"algebraic laws of Invert/Normalize/String are evaluated on every relationship created; non-trivial = schema with >=1 two-way pair or >=2 relationships; distinct = distinct event-log hash"
@@ -230,6 +230,40 @@ func (h *hist) step() (v *core.Violation, aborted bool) {
 		}
 
 		h.st.Inc("probe:state-bulk-offenders")
+
+		if t.Bool(1, 2) {
+			// ... or many types at once (8..24), each with one or two offenders: whatever
+			// Check does differently for large schemas is on its other side here
+			ntypes := t.Range(8, 24)
+			added := 0
+
+			for i := 0; i < ntypes; i++ {
+				tn := fmt.Sprintf("%s-many%d", n, i)
+				trels := map[string]jsonapi.Rel{"r1": {FromType: tn, FromName: "r1", ToType: "nowhere", ToOne: true}}
+
+				if i%3 == 0 {
+					trels["r2"] = jsonapi.Rel{FromType: tn, FromName: "r2", ToType: tn, ToName: "missing-inverse"}
+				}
+
+				var err error
+
+				if p := core.Call(func() { err = s.AddType(jsonapi.Type{Name: tn, Rels: trels}) }); p != nil {
+					return nil, true
+				}
+
+				if err == nil {
+					added++
+				}
+			}
+
+			h.st.Inc("probe:state-many-types-at-once")
+			t.Logf("AddType x %d (names %q-many<i>, one or two offending relationships each) -> %d added", ntypes, n, added)
+			m.resync(s)
+			h.steps++
+			h.bulked = true
+
+			return nil, false
+		}
 
 		var err error
 
@@ -773,6 +807,7 @@ func (h *hist) checkC15() (*core.Violation, bool) {
 	h.m.resync(h.s)
 
 	before := content(h.s)
+	beforeExact := contentExact(h.s) // with the nil-ness of every field map
 	strict, loose := offending(h.m)
 	nrels := 0
 
@@ -813,8 +848,8 @@ func (h *hist) checkC15() (*core.Violation, bool) {
 
 	h.classify()
 
-	if after := content(h.s); after != before {
-		return h.viol("check-readonly", "Schema.Check", "any", "Check() modified the schema\n    before: %s\n    after:  %s", before, after), nrels > 0
+	if after := contentExact(h.s); after != beforeExact {
+		return h.viol("check-readonly", "Schema.Check", "any", "Check() modified the schema\n    before: %s\n    after:  %s", beforeExact, after), nrels > 0
 	}
 
 	if errs == nil {
